@@ -381,6 +381,10 @@ def regenerate():
 # list of objects is a cell [-8]; a numpy integer array is a cell [-7, values...]; a tuple of objects is a cell
 # [-6] (immutable); an instance of a plain class (`Box`) is a cell [-5] whose references are its attribute
 # values in insertion order (attribute "h" first).  A dict / Box without references is EMPTY (`{}`).
+# A numpy array of dtype=object is a cell [-4] (1-D) / [-4, c] (2-D with c columns; c = 0: 0-d) whose references are its
+# ELEMENTS in C order (per-individual ragged record lists, arrays of unequal length, dicts, class instances):
+# `ndarray.copy()` / `numpy.array(x)` / `x[:]`-style copies of such an array are SHALLOW (the elements are
+# shared), only copy.deepcopy copies the elements too.
 DEPTH = 5
 
 
@@ -415,6 +419,12 @@ def build_objects(nodes):
             objs.append(None)                 # tuples are immutable: built below, children first
         elif d[:1] == [-7]:
             objs.append(numpy.array(d[1:], dtype=numpy.int64))
+        elif d[:1] == [-4]:
+            a = numpy.empty(len(n["r"]), dtype=object)          # elements are stored below, one by one
+            if d == [-4, 0]:
+                assert len(n["r"]) == 1
+                a = numpy.empty((), dtype=object)               # a 0-d array wrapping one object
+            objs.append(a if (len(d) == 1 or d[1] == 0) else a.reshape(-1, d[1]))
         else:
             objs.append(list(d))
     # the generator gives the elements of a tuple higher indices than the tuple (or they are not tuples)
@@ -433,6 +443,10 @@ def build_objects(nodes):
         elif n["d"][:1] == [-8]:
             for r in n["r"]:
                 o.append(objs[r])
+        elif n["d"][:1] == [-4]:
+            for idx, r in zip(numpy.ndindex(o.shape), n["r"]):
+                o[idx] = objs[r]                 # a full integer index stores the object itself
+            assert all(o[idx] is objs[r] for idx, r in zip(numpy.ndindex(o.shape), n["r"]))
     return objs
 
 
@@ -460,6 +474,9 @@ def data_children(o):
         return [-9], list(o.values())
     if isinstance(o, Box):
         return [-5], list(vars(o).values())
+    if isinstance(o, numpy.ndarray) and o.dtype == object:
+        return ([-4] if o.ndim == 1 else [-4, int(o.shape[-1]) if o.ndim else 0]), \
+            [o[idx] for idx in numpy.ndindex(o.shape)]
     if isinstance(o, numpy.ndarray):
         try:
             if o.dtype.kind in "iu":
@@ -508,6 +525,8 @@ def mut_obj(o, tok):
         h = vars(o).setdefault("h", [])
         if isinstance(h, list):
             h.append(tok)
+    elif isinstance(o, numpy.ndarray) and o.dtype == object:
+        pass                        # its elements are mutated (addressed by path), the array of references is not
     elif isinstance(o, numpy.ndarray):
         if o.size >= 1:
             o.ravel()[-1] = tok
@@ -962,7 +981,10 @@ class C20(Prop):
             "operator / logbook / initialisation stubs: start containers given (flat; nested up to 4 levels of dict / "
             "list / tuple / class instance / numpy array with sharing between containers and cycles; a chain 12 levels "
             "deep; a 1030-element list, a 1100-element array, a dict with 131 values; EMPTY dicts `{}`, empty lists, "
-            "zero-length arrays; the same dict for two slots), partly missing or produced by the initialisation "
+            "zero-length arrays; the same dict for two slots; containers whose TOP-LEVEL values — or values inside a "
+            "list of arrays, or at any depth — are numpy arrays of dtype=object, 0-d / 1-D / 2-D, holding mutable "
+            "elements: ragged record lists, arrays of unequal length, a dict / class instance per individual, the "
+            "same element twice), partly missing or produced by the initialisation "
             "operator; every operator call mutates handed containers in place with a unique token (at the top and at "
             "every level below), may mutate objects it kept from EARLIER calls, and returns per slot either the handed "
             "object, another handed object (alias), a fresh container with unique content or a fresh EMPTY container "
@@ -976,7 +998,11 @@ class C20(Prop):
                "(theorems view_copy / Good.extend; copies that stop k levels down are modelled too (levelCopy) and "
                "refuted by shallow_level_counterexample); that Python's memoised traversal computes the same graph "
                "up to unreachable garbage — for dicts, lists, tuples, numpy arrays and instances of plain classes — "
-               "is trusted",
+               "is trusted.  A numpy array of dtype=object is a cell whose references are its elements "
+               "(numpy's __deepcopy__ copies them with the caller's memo; `ndarray.copy()` / `numpy.array(x)` share "
+               "them = levelCopy, theorem object_array_shallow_copy_counterexample); that correspondence is checked "
+               "on every run, cycles THROUGH an object array are not generated (numpy's __deepcopy__ does not "
+               "memoise the array before its elements)",
                "the ast -> Lean translator of harness/props/c20.py (one Lean statement per Python statement, "
                "nothing normalised; initialize() / is_initialized() must be textually the five-container assignment / "
                "the conjunction of five `is not None` tests); checked on every run by comparing the trace of the "
@@ -1031,10 +1057,24 @@ class C20(Prop):
             # now and then a zero-length array
             return add([-7] + [num() for _ in range(rng.randint(1, 3) if rng.random() < 0.93 else 0)])
 
+        def objarr(depth):
+            # a numpy array of dtype=object: per-individual records (ragged lists, arrays of unequal length,
+            # now and then a nested object); 1-D, now and then 2-D, now and then of length zero
+            i = add([-4])
+            k = rng.choice([0, 1, 2, 2, 3, 4])
+            elems = [(leaf() if rng.random() < 0.5 else arr()) if (depth <= 1 or rng.random() < 0.7)
+                     else sub(depth - 1) for _ in range(k)]
+            nodes[i]["r"] = elems
+            if k == 4 and rng.random() < 0.5:
+                nodes[i]["d"] = [-4, 2]
+            return i
+
         def sub(depth):
             r = rng.random()
             if depth <= 0:
                 return leaf() if r < 0.5 else arr()
+            if rng.random() < 0.12:
+                return objarr(depth)
             if r < 0.12:
                 return leaf()
             if r < 0.3:
@@ -1094,7 +1134,7 @@ class C20(Prop):
         stack = [(root, [])]
         while stack:
             n, pth = stack.pop()
-            if nodes[n]["d"][:1] not in ([-8], [-6]):
+            if nodes[n]["d"][:1] not in ([-8], [-6], [-4]):
                 out.append(pth)
             if len(pth) < maxlen:
                 for j, r in enumerate(nodes[n]["r"]):
@@ -1268,6 +1308,58 @@ class C20(Prop):
                 else:
                     graph.append({"d": [-9], "r": [len(graph) + 1]})
                     graph.append({"d": [10 * (i + 1), i + 1][:rng.randint(0, 2)], "r": []})   # maybe an empty list
+        elif start_mode == "objarr":
+            # what a container of per-individual records looks like: a dict whose TOP-LEVEL values are numpy
+            # arrays of dtype=object holding mutable elements (ragged record lists, marker vectors of unequal
+            # length, a dict / class instance per individual), beside ordinary numeric arrays and lists
+            cells = []
+            graph, start = [], []
+            cnt = [0]
+
+            def gadd(d, r=()):
+                graph.append({"d": list(d), "r": list(r)})
+                return len(graph) - 1
+
+            def gnum():
+                cnt[0] += 1
+                return cnt[0]
+
+            k = rng.choice([1, 2, 2, 3, 5]) if _empties is None else _empties
+            with_arr = set(rng.sample(range(5), k))
+            for i in range(5):
+                root = gadd([-9])
+                start.append(root)
+                refs = [gadd([gnum() for _ in range(rng.randint(0, 2))])]            # "h"
+                if i not in with_arr or rng.random() < 0.5:
+                    refs.append(gadd([-7] + [gnum() for _ in range(rng.randint(1, 3))]))   # a numeric array (control)
+                if i in with_arr:
+                    for _ in range(rng.randint(1, 2)):
+                        oa = gadd([-4])
+                        n = rng.choice([1, 2, 2, 3, 4])
+                        elems = []
+                        for j in range(n):
+                            r = rng.random()
+                            if r < 0.45:      # a ragged record list
+                                elems.append(gadd([gnum() for _ in range(1 + (j % 3))]))
+                            elif r < 0.8:     # a marker vector, lengths unequal
+                                elems.append(gadd([-7] + [gnum() for _ in range(1 + (j % 3))]))
+                            elif r < 0.9:     # a dict per individual
+                                elems.append(gadd([-9], [gadd([gnum()])]))
+                            else:             # a class instance per individual
+                                elems.append(gadd([-5], [gadd([gnum()])]))
+                        if n >= 2 and rng.random() < 0.2:
+                            elems[-1] = elems[0]          # the same record object stored twice
+                        graph[oa]["r"] = elems
+                        if n == 4 and rng.random() < 0.5:
+                            graph[oa]["d"] = [-4, 2]
+                        elif n == 1 and rng.random() < 0.5:
+                            graph[oa]["d"] = [-4, 0]      # a 0-d object array wrapping one record
+                        if rng.random() < 0.3:
+                            # ... inside a LIST of arrays (one array per trait), beside a numeric array
+                            oa = gadd([-8], [gadd([-7] + [gnum() for _ in range(rng.randint(1, 2))]), oa])
+                        refs.append(oa)
+                graph[root]["r"] = refs
+            paths = [self._paths(graph, r) for r in start]
         elif start_mode == "deep":        # one container nested a dozen levels deep: dict -> list -> dict -> ...
             cells = []
             graph, start = [], []
@@ -1478,6 +1570,17 @@ class C20(Prop):
             self._case(rng, [ev(2, 0)], start_mode="big", style="inplace", tag="sizes"),
             # ---- containers holding tuples and class instances (copied by copy.deepcopy at every level)
             self._case(rng, [ev(2, 2)], start_mode="nested", style="inplace", tag="kinds"),
+            # ---- dtype / aliasing: TOP-LEVEL values that are numpy arrays of dtype=object with mutable elements
+            # (ragged record lists, marker vectors of unequal length): `ndarray.copy()` shares the elements
+            self._case(rng, [ev(2, 1)], start_mode="objarr", style="inplace", tag="dtype", _empties=5),
+            self._case(rng, [ev(3, 2)], start_mode="objarr", style="mixed", tag="dtype"),
+            self._case(rng, [ev(2, 1), {"m": "reset"}, {"m": "advance", "ngen": 1}], start_mode="objarr",
+                       style="inplace", tag="dtype", _empties=3),
+            self._case(rng, [{"m": "reset"}, {"m": "advance", "ngen": 1}, {"m": "reset"}], start_mode="objarr",
+                       style="inplace", tag="dtype", _empties=5),
+            self._case(rng, [ev(2, 2)], start_mode="objarr", style="pure", p_late=0.7, tag="dtype", _empties=5),
+            self._case(rng, [ev(2, 1, loginit=False)], start_mode="objarr", style="inplace", tag="dtype",
+                       _empties=1),
         ]
         for c in out:
             c["_corpus"] = "builtin"
@@ -1502,7 +1605,7 @@ class C20(Prop):
             if tier == "thorough" and rng.random() < 0.05:
                 nrep, ngen = rng.randint(4, 8), rng.randint(4, 9)
             style = rng.choice(["mixed", "mixed", "mixed", "inplace", "fresh", "pure"])
-            mode = rng.choice(["given"] * 5 + ["nested"] * 2 + ["empty"] * 2 +
+            mode = rng.choice(["given"] * 5 + ["nested"] * 2 + ["empty"] * 2 + ["objarr"] * 2 +
                               ["shared", "shared-inner", "partial", "init", "init"])
             if rng.random() < 0.03:
                 mode = "deep"
@@ -1514,7 +1617,7 @@ class C20(Prop):
             if rng.random() < 0.15:
                 falsy = {n: rng.choice(["len", "bool"]) for n in STUB_NAMES if rng.random() < 0.5} or {"lbook": "len"}
             sub = rng.random() < 0.1
-            if mode in ("nested", "deep"):
+            if mode in ("nested", "deep", "objarr"):
                 nrep, ngen = min(nrep, 3), min(ngen, 3)
             if mode == "big":
                 nrep, ngen = max(min(nrep, 2), 2), 0
@@ -1624,7 +1727,7 @@ class C20(Prop):
                 # working containers
                 calls = []
                 have_work = False
-                inited = mode in ("given", "shared", "nested", "shared-inner", "empty", "deep", "big")
+                inited = mode in ("given", "shared", "nested", "shared-inner", "empty", "deep", "big", "objarr")
                 for _ in range(rng.randint(1, 5)):
                     choice = rng.random()
                     if not inited or choice < 0.3:
@@ -2274,6 +2377,31 @@ class C20(Prop):
                 lambda x: "(lambda f, x: f(f, x, 0))(lambda f, x, n: (copy.deepcopy(x) if not isinstance(x, (dict, list)) else "
                           "(x if n >= 10 else ({k: f(f, v, n + 1) for k, v in x.items()} if isinstance(x, dict) "
                           "else [f(f, v, n + 1) for v in x]))), " + x + ")"))),
+            # ---- dtype / aliasing: copies that are deep for numeric arrays only (ndarray.copy / numpy.array of an
+            # object-dtype array share its elements)
+            ("reset_ndarray_copy_for_top_level_arrays_in_all_five", mk(["reset"], lambda s: (lambda cp: s.replace(
+                "copy.deepcopy(self.start_genome)", cp("self.start_genome")).replace(
+                "copy.deepcopy(self.start_geno)", cp("self.start_geno")).replace(
+                "copy.deepcopy(self.start_pheno)", cp("self.start_pheno")).replace(
+                "copy.deepcopy(self.start_bval)", cp("self.start_bval")).replace(
+                "copy.deepcopy(self.start_gmod)", cp("self.start_gmod")))(
+                lambda x: "{k: (v.copy() if type(v).__name__ == 'ndarray' else copy.deepcopy(v)) for k, v in "
+                          + x + ".items()}"))),
+            ("reset_numpy_array_copy_of_arrays_in_pheno_at_any_depth", mk(["reset"], lambda s: s.replace(
+                "copy.deepcopy(self.start_pheno)",
+                "copy.deepcopy(self.start_pheno, {id(a): __import__('numpy').array(a, copy=True) for a in "
+                "(lambda f, x: f(f, x, 0))(lambda f, x, n: ([x] if type(x).__name__ == 'ndarray' and x.dtype == object "
+                "else ([] if n > 6 else [y for v in (x.values() if isinstance(x, dict) else (x if isinstance(x, (list, tuple)) "
+                "else (vars(x).values() if hasattr(x, '__dict__') else []))) for y in f(f, v, n + 1)])), self.start_pheno)})"))),
+            ("reset_list_of_arrays_copied_array_by_array", mk(["reset"], lambda s: (lambda cp: s.replace(
+                "copy.deepcopy(self.start_genome)", cp("self.start_genome")).replace(
+                "copy.deepcopy(self.start_geno)", cp("self.start_geno")).replace(
+                "copy.deepcopy(self.start_pheno)", cp("self.start_pheno")).replace(
+                "copy.deepcopy(self.start_bval)", cp("self.start_bval")).replace(
+                "copy.deepcopy(self.start_gmod)", cp("self.start_gmod")))(
+                lambda x: "{k: ([a.copy() for a in v] if isinstance(v, list) and len(v) > 0 and "
+                          "all(type(a).__name__ == 'ndarray' for a in v) else copy.deepcopy(v)) for k, v in "
+                          + x + ".items()}"))),
             # ---- the clock between calls
             ("evolve_undoes_the_last_tick", mk(["evolve"], lambda s: s.replace(
                 "                verbose = verbose,\n                **kwargs\n            )\n",
